@@ -1,4 +1,4 @@
 INIT Init
 NEXT Next
-INVARIANTS CutExact Offsets Emit
+INVARIANTS CutExact Fmt0Filler Offsets Emit
 CHECK_DEADLOCK FALSE
